@@ -287,6 +287,17 @@ func decide(c *vf.Case, s *scenario, mon *monitor, w *recWriter) {
 	var nObs, nPre, nRTP, nForeignOnly, nBig int64
 	var samples []string
 
+	// a report, once written, stays that report: a writer may queue what it was given (the
+	// library's own test writer does); the object must still carry the values it was written with
+	for i, o := range obs {
+		if p := o.ptr; p != nil && (p.SSRC != o.sr.SSRC || p.NTPTime != o.sr.NTPTime || p.RTPTime != o.sr.RTPTime ||
+			p.PacketCount != o.sr.PacketCount || p.OctetCount != o.sr.OctetCount) {
+			c.Violation("report/changed-after-it-was-written", "%s: sender report #%d (SSRC %d, written at %dns with packets=%d octets=%d ntp=%#x rtp=%d) reads packets=%d octets=%d ntp=%#x rtp=%d at the end of the history: the interceptor kept writing into an object it had handed to the RTCP writer",
+				ctx, i, o.sr.SSRC, o.v, o.sr.PacketCount, o.sr.OctetCount, o.sr.NTPTime, o.sr.RTPTime, p.PacketCount, p.OctetCount, p.NTPTime, p.RTPTime)
+			break
+		}
+	}
+	c.Add("reports_checked_unchanged_after_write", int64(len(obs)))
 	for _, o := range obs {
 		nObs++
 		if !o.known {
